@@ -4,7 +4,7 @@ cd "$(dirname "$0")/.."
 IDS=$(python3 -c "import json;print(' '.join(c['property_id'] for c in json.load(open('MANIFEST.json'))['checks']))")
 for seed in "$@"; do
   for id in $IDS; do
-    out=$(VERIF_SEED=$seed ./check $id --tier quick 2>&1); rc=$?
+    out=$(VERIF_SCRATCH_EVIDENCE=1 VERIF_SEED=$seed ./check $id --tier quick 2>&1); rc=$?
     echo "seed=$seed $id rc=$rc $(echo "$out" | grep -c '^VIOLATION') viol | $(echo "$out" | grep 'tier=' | cut -c1-150)"
     if [ $rc -ne 0 ]; then echo "$out" | grep -E "VIOLATION|what|MACHINERY" | head -6 | cut -c1-400; fi
   done
